@@ -206,6 +206,7 @@ func ruleMergerGuards(r *Run) {
 		// before its merge calls, both halves of each lo.Difference
 		type pairHelper struct {
 			fn           *ssa.Function
+			site         *ssa.Call // the call in mergeTypes
 			kindG, nodeG *agreeGuard
 		}
 		var helpers []*pairHelper
@@ -230,20 +231,26 @@ func ruleMergerGuards(r *Run) {
 						defs++
 					}
 				}
-				merges := false
+				merges, compares := false, false
 				for _, i2 := range allInstrs(sc) {
 					if c2, ok := i2.(*ssa.Call); ok {
 						cn2 := calleeName(&c2.Call)
-						if strings.HasSuffix(cn2, "merger.mergeRootObjects") || strings.HasSuffix(cn2, "merger.mergeCustomObjects") || strings.HasPrefix(cn2, "github.com/samber/lo.Difference") {
+						if strings.HasSuffix(cn2, "merger.mergeRootObjects") || strings.HasSuffix(cn2, "merger.mergeCustomObjects") {
 							merges = true
+						}
+						if strings.HasPrefix(cn2, "github.com/samber/lo.Difference") {
+							compares = true
 						}
 					}
 				}
-				if defs < 2 || !merges {
+				// a helper that is handed the two definitions and merges or compares them, or one
+				// that is handed parts of them (`checkSameFields(va.Fields, nvb.Fields)`) and makes a
+				// member comparison: that comparison is one of mergeTypes'
+				if !(compares || (defs >= 2 && merges)) {
 					continue
 				}
 				seenHelper[sc] = true
-				h := &pairHelper{fn: sc}
+				h := &pairHelper{fn: sc, site: c}
 				for _, i2 := range allInstrs(sc) {
 					iff, ok := i2.(*ssa.If)
 					if !ok {
@@ -399,7 +406,28 @@ func ruleMergerGuards(r *Run) {
 			}
 			nDiff++
 			site := r.P.pos(c.Pos())
-			ra, rb := containerReads(c.Call.Args[0]), containerReads(c.Call.Args[1])
+			// what a helper computes from its parameters alone is read from what mergeTypes
+			// hands it
+			readsOf := func(v ssa.Value) map[string]bool {
+				out := containerReads(v)
+				if len(out) > 0 {
+					return out
+				}
+				for _, h := range helpers {
+					if h.fn != c.Parent() || h.site == nil {
+						continue
+					}
+					for _, k := range paramsBehind(v, h.fn) {
+						if k < len(h.site.Call.Args) {
+							for rd := range containerReads(h.site.Call.Args[k]) {
+								out[rd] = true
+							}
+						}
+					}
+				}
+				return out
+			}
+			ra, rb := readsOf(c.Call.Args[0]), readsOf(c.Call.Args[1])
 			fields := map[string]bool{}
 			for k := range ra {
 				fields[strings.SplitN(k, " of ", 2)[0]] = true
@@ -930,7 +958,68 @@ func ruleRoutingPairs(r *Run) {
 		if given == nil || schemas == nil {
 			why = "the call of the introspector (and the list of URLs it is given) was not found in NewGateway"
 		}
-		for _, f := range withClosures(ng) {
+		// where the pairing may be made: NewGateway, its function literals, and the functions of
+		// the module it hands lists to (`newMergeInputs(schemas, urls)`), with theirs. A list that
+		// is a parameter of such a function is the list its one caller passes.
+		scope := withClosures(ng)
+		inScope := map[*ssa.Function]bool{}
+		for _, f := range scope {
+			inScope[f] = true
+		}
+		sitesOf := map[*ssa.Function][]*ssa.Call{}
+		for start, depth := 0, 0; start < len(scope) && depth < 3; depth++ {
+			hi := len(scope)
+			for _, f := range scope[start:hi] {
+				for _, ins := range allInstrs(f) {
+					c, ok := ins.(*ssa.Call)
+					if !ok {
+						continue
+					}
+					sc := c.Call.StaticCallee()
+					if sc == nil || !inModule(sc) || sc.Blocks == nil || sc.Parent() != nil {
+						continue
+					}
+					lists := false
+					for _, a := range c.Call.Args {
+						if _, isSlice := a.Type().Underlying().(*types.Slice); isSlice {
+							lists = true
+						}
+					}
+					if !lists {
+						continue
+					}
+					sitesOf[sc] = append(sitesOf[sc], c)
+					if !inScope[sc] {
+						for _, g := range withClosures(sc) {
+							inScope[g] = true
+							scope = append(scope, g)
+						}
+					}
+				}
+			}
+			start = hi
+		}
+		callerList := func(base ssa.Value) ssa.Value {
+			for depth := 0; depth < 3; depth++ {
+				p, ok := base.(*ssa.Parameter)
+				if !ok || p.Parent() == nil || p.Parent() == ng || len(sitesOf[p.Parent()]) != 1 {
+					return base
+				}
+				site := sitesOf[p.Parent()][0]
+				k := -1
+				for i, q := range p.Parent().Params {
+					if q == p {
+						k = i
+					}
+				}
+				if k < 0 || k >= len(site.Call.Args) {
+					return base
+				}
+				base = sliceIdentity(site.Call.Args[k])
+			}
+			return base
+		}
+		for _, f := range scope {
 			for _, ins := range allInstrs(f) {
 				al, ok := ins.(*ssa.Alloc)
 				if !ok || !strings.HasSuffix(namedOf(al.Type()), "merger.MergeInput") || given == nil || schemas == nil {
@@ -949,6 +1038,9 @@ func ruleRoutingPairs(r *Run) {
 						}
 						// which element of which list the stored value is
 						base, idx := listElement(f, st.Val, 0)
+						if base != nil {
+							base = callerList(base)
+						}
 						switch fieldOf(fa).Name() {
 						case "Schema":
 							if base == schemas {
